@@ -1491,6 +1491,11 @@ class LangServer:
         entry = self.obj_tree.get(key)
         if (entry is not None) and (entry[1] == filepath):
             self.obj_tree.pop(key, None)
+            # The file may have overridden a bundled intrinsic module of the same
+            # name: that one is visible again
+            for module in self.intrinsic_mods:
+                if module.FQSN == key:
+                    self.obj_tree[key] = [module, None]
 
     @staticmethod
     def _release_included_files(ast_old: FortranAST) -> None:
